@@ -334,6 +334,8 @@ func faultMsg(kind string, k int) string {
 		return subMsg + "errboom" + strconv.Itoa(k)
 	case "panic-value":
 		return subMsg + strconv.Itoa(1000+k)
+	case "panic-unhashable":
+		return subMsg + "listboom" + strconv.Itoa(k)
 	case "runtime-error":
 		return anyMsg
 	}
@@ -857,7 +859,11 @@ func (g *gen) stmt(c gctx) *Node {
 			return &Node{K: "show-e", ID: id}
 
 		case k == 15:
-			return &Node{K: "throw", ID: id, Msg: "t" + strconv.Itoa(id)}
+			msg := "t" + strconv.Itoa(id)
+			if g.r.Intn(3) == 0 {
+				msg += []string{" 100%", " %d of %s", "%", " 5%%"}[g.r.Intn(4)] // a thrown text is data, whatever it contains
+			}
+			return &Node{K: "throw", ID: id, Msg: msg}
 		case k == 16:
 			return &Node{K: "rterr", ID: id, N: g.r.Intn(4)}
 		case k == 17 && len(c.loops) > 0 && !c.noBrk:
@@ -887,7 +893,11 @@ func (g *gen) stmt(c gctx) *Node {
 	}
 }
 
-var faultKinds = []string{"panic-string", "panic-error", "panic-value", "runtime-error", "error-result"}
+var faultKinds = []string{"panic-string", "panic-error", "panic-value", "runtime-error", "error-result", "panic-unhashable"}
+
+type errList []string
+
+func (e errList) Error() string { return strings.Join(e, "; ") }
 
 type Prop struct{}
 
@@ -953,6 +963,9 @@ func (Prop) Run(t *testing.T, c *harness.Case, verbose bool) *harness.Result {
 				panic(errors.New(strings.TrimPrefix(faultMsg(f, calls), subMsg)))
 			case "panic-value":
 				panic(1000 + calls)
+			case "panic-unhashable":
+				// an error value of slice kind (like go/scanner.ErrorList): it cannot be hashed or compared
+				panic(errList{strings.TrimPrefix(faultMsg(f, calls), subMsg), "second"})
 			case "runtime-error":
 				var mm map[string]int
 				mm["x"] = 1
